@@ -692,6 +692,50 @@ fn run_case(h: &str, p: &str, s: u64, ops: u64) -> Dump {
 }
 
 /// One run, panics of the code under test captured as a section of their own.
+/// The asynchronous persistence harnesses run in three chunks; with `pause_ms > 0` the driving thread really
+/// sleeps between the chunks (what a loaded machine or a stopped process does). A simulation that is a pure
+/// function of seed and configuration cannot tell the difference; one that consults the wall clock can.
+fn paced_dump(h: &str, p: &str, s: u64, ops: u64, pause_ms: u64) -> String {
+    let n = ops as usize;
+    let chunks = [n / 3, n / 3, n - 2 * (n / 3)];
+    macro_rules! paced {
+        ($H:ident, $cfg:expr) => {{
+            let runtime = rt();
+            let mut hh = runtime.block_on($H::new($cfg));
+            for (i, c) in chunks.iter().enumerate() {
+                runtime.block_on(hh.run(*c));
+                if pause_ms > 0 && i < 2 {
+                    std::thread::sleep(std::time::Duration::from_millis(pause_ms));
+                }
+            }
+            runtime.block_on(hh.check_invariants());
+            let r = hh.into_result();
+            format!("{:?}\nsuccess={}", r, r.is_success())
+        }};
+    }
+    let out = guard(|| match h {
+        "StreamingDSTHarness" => paced!(
+            StreamingDSTHarness,
+            match p {
+                "new" => StreamingDSTConfig::new(s),
+                "calm" => StreamingDSTConfig::calm(s),
+                "moderate" => StreamingDSTConfig::moderate(s),
+                _ => StreamingDSTConfig::chaos(s),
+            }
+        ),
+        _ => paced!(
+            CompactionDSTHarness,
+            match p {
+                "new" => CompactionDSTConfig::new(s),
+                "calm" => CompactionDSTConfig::calm(s),
+                "aggressive" => CompactionDSTConfig::aggressive(s),
+                _ => CompactionDSTConfig::chaos(s),
+            }
+        ),
+    });
+    out.unwrap_or_else(|m| format!("panic: {}", m))
+}
+
 fn dump_text(h: &str, p: &str, s: u64, ops: u64) -> (String, usize) {
     match guard(|| run_case(h, p, s, ops)) {
         Ok(d) => (d.render(), d.trace_items),
@@ -816,6 +860,33 @@ fn eval_case(rep: &mut Report, c: &Case, reruns: usize, children: usize, probes_
     };
     for r in &runs[1..] {
         report(rep, "rerun-same-thread", &r.0);
+    }
+    // wall-clock pacing (persistence harnesses, a quarter of the seeds): same chunked run with and without real pauses
+    if (c.h == "StreamingDSTHarness" || c.h == "CompactionDSTHarness") && c.s % 4 == 0 {
+        let (h, p, s, ops) = (c.h.clone(), c.p.clone(), c.s, c.ops);
+        let pair = std::thread::Builder::new()
+            .stack_size(32 << 20)
+            .spawn(move || (paced_dump(&h, &p, s, ops, 0), paced_dump(&h, &p, s, ops, 130)))
+            .expect("spawn")
+            .join()
+            .ok();
+        match pair {
+            Some((plain, paused)) => {
+                rep.count("runs_with_real_pauses");
+                rep.add("bytes_compared", plain.len().min(paused.len()) as u64);
+                if plain != paused {
+                    let at = plain.bytes().zip(paused.bytes()).position(|(a, b)| a != b).unwrap_or(plain.len().min(paused.len()));
+                    let mut w = c.json();
+                    w["relation"] = json!("paced");
+                    rep.violation(
+                        format!("C20|{}|result-depends-on-wall-clock-pacing", c.h),
+                        format!("preset {} seed {} ops {}: the same chunked run gives a different result when the driving thread sleeps 130 ms between chunks; first difference at byte {}: ...{} | ...{}", c.p, c.s, c.ops, at, &plain[at.saturating_sub(60)..(at + 60).min(plain.len())], &paused[at.saturating_sub(60)..(at + 60).min(paused.len())]),
+                        w,
+                    );
+                }
+            }
+            None => rep.inconclusive(format!("runner thread died for the paced relation of {:?}", c.json())),
+        }
     }
     match &after_other {
         Some(r) => {
